@@ -252,7 +252,7 @@ func gobDirect(c *Ctx) {
 		if ok {
 			call := calls[0].(*ssa.Call)
 			mi, isMI := call.Call.Args[1].(*ssa.MakeInterface)
-			ok = isMI && mi.X == ssa.Value(cl.Params[0])
+			ok = isMI && mi.X == ssa.Value(userParam(cl, 0))
 			okRet := false
 			eachInstr(cl, func(i ssa.Instruction) {
 				if r, isR := i.(*ssa.Return); isR && r.Results[0] == ssa.Value(call) {
